@@ -8,10 +8,21 @@ LEVEL_TEXT = ("Lean theorem (non-interference, unbounded in statements and files
               "written, truncated or removed leaves the same bytes in every file it touches whatever persistent state earlier runs left behind. The effect "
               "summary of the generation stage (every open/loadtxt/savetxt/remove and every cat/sed/mv/rm shell command of duplicate_checker.main and "
               "its callees, in execution order, loops over literal lists unrolled) is regenerated from the source on every run and the predicate is decided "
-              "on it in Lean; likewise that every shuffle is seeded in its own stage and every stage (re)writes the symbol-table keys it reads. The summary "
+              "on it in Lean. The summary also exists in structured form: an open whose mode is chosen at run time ('w' if i == 0 else 'a', a mode variable bound "
+              "in branches or re-bound in a loop) keeps its condition (always / firstIteration / conditional) and counts as the weakest of its modes in the flat "
+              "summary, and the effects inside a for/while over a run-time collection form a loop block (for v in range(e): indices in order; anything else: any "
+              "index may be skipped). Lean theorem (unbounded in the number of iterations): if the dominance check safeAll passes on the structured summary then on "
+              "EVERY execution -- every loop run any number of times including zero, indices skipped, either arm of every run-time mode -- each read/append follows a "
+              "truncation/write/remove of that file in the same execution, hence every execution is history independent; conversely an execution that appends to a "
+              "file it never truncates has two initial states with different outputs and safeAll rejects its program (append_after_conditional_truncate_depends_on_"
+              "history). safeAll is decided on the regenerated generation summary, with the numbered round files of do_sympy (written by one loop, read back by a later "
+              "loop over the same count) declared and checked by the audit trace instead. Likewise that every shuffle is seeded in its own stage and every stage (re)writes the symbol-table keys it reads. The summary "
               "is validated against a dynamic audit trace of a real run, and real runs after PRNG-drawn histories (other bases, other complexities, repeats, "
               "left-over and corrupted outputs; same process and fresh process) are compared byte for byte with a fresh run, for generation and for the "
-              "four fitting stages. In-memory state: a second table regenerated from the source lists every cell that survives between two calls in one "
+              "four fitting stages; and for one operator basis per arity-class profile (every emptiness/singleton pattern of the unary and binary classes, both nullary "
+              "singletons, no leaf label; through the verif_* hook) and every complexity 1..4 (1..5 thorough) the second identical call in one process and a new process "
+              "over the directory of the earlier runs are compared byte for byte with the first run, a difference being re-run in isolation against a fresh process "
+              "into an empty directory before it is reported. In-memory state: a second table regenerated from the source lists every cell that survives between two calls in one "
               "process (every module-level name of every esr module, mutable default arguments, class and function attributes, lru_cache memos, numpy's and "
               "random's global generators, signal handlers and timers, warning filters, os.environ, cwd, recursion limit, numpy error/print state, sympy "
               "printer settings and cache) with, per entry point, whether it is not touched / only read / written with the import-time literal / completely "
@@ -23,7 +34,8 @@ LEVEL_TEXT = ("Lean theorem (non-interference, unbounded in statements and files
 TECHNIQUE = ("Lean 4 non-interference proofs over a file-effect summary and an in-memory cell table, both regenerated from source + audit-trace and "
              "memory-fingerprint validation + differential history runs")
 RULE = ("one case = one (history, observed call) pair whose output files are byte-compared with the fresh-process/empty-directory run; non-trivial = "
-        "the history has at least one earlier call or left-over file; distinct by the history")
+        "the history has at least one earlier call or left-over file; distinct by the history; rerun grid: one case per (basis, complexity, kind of rerun), "
+        "trivial when that basis has no library at that complexity even in a fresh process")
 EXPLANATION = LEVEL_TEXT
 TRUSTED = ["harness/extractors/effects.py (static effect extraction; validated against the audit trace each run)", "Python audit events 'open', 'os.system', 'os.remove', 'os.rename' are complete for file access of the stage",
            "harness/extractors/_norm_c16.py, semantics-preserving readings shared by both extractors: (A) one level of helper inlining -- a private module-level "
@@ -33,6 +45,10 @@ TRUSTED = ["harness/extractors/effects.py (static effect extraction; validated a
            "(B) order of statements/calls taken from the source order, not from line numbers; (C) key flow -- names that only ever hold a<i> strings / lists of "
            "them (index, zip, enumerate loops, f-string/format/concatenation/%-keys, list indexing) and `dict.update(zip(names, symbols))` / `.update({key: ..})` "
            "read as item-by-item stores into a<i> keys; only the FORM of the keys is claimed, other keys changing is caught by the memory fingerprints",
+           "effects.py readings of open modes and loops: a mode name is read flow-insensitively as any literal it is bound to in the function (more than two, or a "
+           "non-literal binding: fail closed); `firstIteration` only for `X if v == 0 else Y` (==, !=, >, >=1, <1, <=0, not v, v) on the variable of the innermost loop of "
+           "the same function, decided inside that loop, v not re-bound; `if` branches are still read in sequence (rank tests are consistent); a truncation inside a loop "
+           "nested in a loop block is read as `may not happen` (alternative r); the numbered round files (inv_idx/inv_subs_<n>_round_<k>) are a declared family",
            "effects.py readings: file names through %/f-string/str.format/concatenation/os.path.join/hoisted locals/module-level constants; literal lists and tuples of "
            "names unrolled; open mode positional, mode=, or via a local literal ('b'/'t' dropped); os.rename/os.replace/shutil.move = mv, os.unlink = os.remove, "
            "shutil.copy* = read+write; unknown pathlib/tempfile/shutil/np.save-like file operations fail closed; the symbol table recognised as the module-level dict "
@@ -43,7 +59,9 @@ TRUSTED = ["harness/extractors/effects.py (static effect extraction; validated a
            "process-wide setters; validated against memory fingerprints each run)",
            "state kept inside third-party libraries is not enumerated cell by cell: sympy's cache is one declared cell assumed result-neutral, covered only by the differential runs",
            "objects passed in as arguments (the likelihood object) are inputs of a call, not cells"]
-ASSUMPTIONS = ["earlier runs completed (no stale per-rank temp files)", "the fitting stages are observed with the numpy RNG re-seeded at the start of the observed stage",
+ASSUMPTIONS = ["earlier runs completed (no stale per-rank temp files)",
+               "the later loop over the rounds reads only round files (inv_idx_<n>_round_<k>, inv_subs_<n>_round_<k>) that the rounds loop of the same run wrote: a fact about "
+               "the round count, declared in Props/C16.lean (roundFamilies) and checked with exact file names by the audit trace of every reference run", "the fitting stages are observed with the numpy RNG re-seeded at the start of the observed stage",
                "the interpreter recursion limit (only ever raised, by fitting calls at complexity >= 8) and sympy's internal cache do not change results",
                "the single-function API (esr.fitting.fit_single) is outside the statement: its string front end reads the a<i> entries of the shared sympy symbol "
                "table without binding them first (theorem carried_with_single_function_api_partial; observed each run, reported in coverage.fit_single_api_probe)"]
